@@ -148,14 +148,34 @@ fn build(decls: &[(usize, bool, usize)]) -> Built {
         ));
     }
     let mut html = String::new();
-    if !author.is_empty() {
-        html.push_str(&format!("<style>{}</style>", author));
+    // Author rules may come in several <style> elements: one in front; or the first rule
+    // deep inside wrappers at the start and the rest in a <style> after the content; or
+    // one <style> per rule.  Document order of the elements is the source order.
+    let author_rules: Vec<&str> = author.lines().collect();
+    let layout = if author_rules.len() >= 2 { crate::rng::hash_str(&desc.join("|")) % 3 } else { 0 };
+    let mut tail = String::new();
+    match layout {
+        1 => {
+            html.push_str(&format!("<div><div><style>{}</style></div></div>", author_rules[0]));
+            tail = format!("<style>{}</style>", author_rules[1..].join("\n"));
+        }
+        2 => {
+            for r in &author_rules {
+                html.push_str(&format!("<style>{}</style>", r));
+            }
+        }
+        _ => {
+            if !author.is_empty() {
+                html.push_str(&format!("<style>{}</style>", author));
+            }
+        }
     }
     html.push_str("<div><p class=\"c\" id=\"i\"");
     if !inline.is_empty() {
         html.push_str(&format!(" style=\"{}\"", inline));
     }
     html.push_str(">Token</p><p>Other</p></div>");
+    html.push_str(&tail);
     let mut cfg = Cfg::rich();
     cfg.use_doc_css = true;
     if !agent.is_empty() {
@@ -472,11 +492,21 @@ fn run_random(rng: &mut Rng, out: &mut CaseOut) {
     });
     let mut st = CssStyle::canonical();
     let mut html = String::new();
-    let author_css = Sheet(sheets[2].clone()).to_css(&mut st);
-    if !sheets[2].is_empty() {
+    let mut tail = String::new();
+    if sheets[2].len() >= 2 && rng.chance(1, 2) {
+        // the author rules in two <style> elements at different depths: the first deep
+        // inside wrappers at the start, the second after the content
+        let k = rng.range(1, sheets[2].len() - 1);
+        let first = Sheet(sheets[2][..k].to_vec()).to_css(&mut st);
+        let second = Sheet(sheets[2][k..].to_vec()).to_css(&mut st);
+        html.push_str(&format!("<div><div><style>{}</style></div></div>", first));
+        tail = format!("<style>{}</style>", second);
+    } else if !sheets[2].is_empty() {
+        let author_css = Sheet(sheets[2].clone()).to_css(&mut st);
         html.push_str(&format!("<style>{}</style>", author_css));
     }
     html.push_str(&String::from_utf8_lossy(&ast::serialize(&doc, &mut Fmt::canonical())));
+    html.push_str(&tail);
     let input = html.into_bytes();
     let mut cfg = Cfg::rich();
     cfg.use_doc_css = true;
